@@ -366,6 +366,20 @@ func c19Run(ctx *core.Ctx) {
 			}
 		}
 	}
+	// ---- widths: 9..20 columns (two-digit placeholder numbers when Incrementing)
+	for _, nc := range []int{9, 10, 11, 12, 16, 17, 20} {
+		f := model.Frame{N: 2}
+		for ci := 0; ci < nc; ci++ {
+			f.Cols = append(f.Cols, model.Col{Name: fmt.Sprintf("c%02d", ci), Kind: model.Int, Cells: []model.Cell{model.I(ci), model.I(-100 - ci)}})
+		}
+		for _, esc := range []string{"", `"`} {
+			for _, incr := range []bool{false, true} {
+				if ctx.Mine() {
+					execT(toSQLCase{Kind: "tosql", Frame: f, Shape: int(ctx.Index() % int64(model.NShapes)), Escape: esc, Incr: incr, Table: "t", ReadBack: esc != ""})
+				}
+			}
+		}
+	}
 	// ---- names: table and column names with characters that mean something to printf, SQL or the escaping
 	nameAlpha := []string{"a", "growth%", "100%done", "%s", "%d%%", "%!v", "a'b", "semi;colon", "x,y", "(p)", "?", "\u00fcn\u00ef", "a.b", "-- c"}
 	for _, table := range nameAlpha {
@@ -407,7 +421,7 @@ func c19Run(ctx *core.Ctx) {
 		{"bytes", []string{"b", "NULL", "cc"}, ""},
 		{"string", []string{"1.5", "NULL", "2.126"}, "stringtofloat"},
 	}
-	names := []string{"a", "b c", "z"}
+	names := []string{"z", "b c", "a"} // deliberately not in alphabetical order
 	maxRows, maxCols := 3, 2
 	if !ctx.Quick() {
 		maxRows, maxCols = 4, 3
